@@ -262,6 +262,15 @@ def run(ctx, tier):
                 if src in r and src not in cbs:
                     probs.append('an iteration can skip the component operation (component i is left out of the result '
                                  'for some inputs other than an exactly-zero weight)')
+        # no shortcut around the component loop: every normal return is reached through the loop over the components
+        # (a fast path such as `if t == 1.0 { out.clone_from(to); return }` skips the components' own canonicalisation)
+        for L in fn.loops():
+            if not any(bi in L['body'] for bi, _t in dyn):
+                continue
+            around = fn.reachable(0, stop=frozenset([L['header']]))
+            if any(rb in around and rb != L['header'] for rb in fn.return_blocks()):
+                probs.append('the method can return without running the loop over its components (a shortcut bypasses the component '
+                             'operations for some inputs)')
         if not dyn:
             probs.append('no component operation is called')
         r_index.inst('%s indexes subspace/components/weights consistently over all subspaces' % b.path, ok=not probs, site=b.loc(0))
